@@ -22,7 +22,7 @@ def x_obligations(tier):
         o.append(Obl(f"C12-sid[{sid},{epre!r}+a+{esuf!r}]", M, "sid_laws", env={"VF_SID": sid, "VF_EPRE": epre, "VF_ESUF": esuf, "VF_FIXED": fixed, "VF_N": "1" if tier == "quick" else "2"}, timeout=T, path_timeout=200,
                      family="C12-sid", bound=f"universe [{epre!r}+a+{esuf!r}, {epre!r}+b{', ' + fixed if fixed else ''}] behind FindInAll; Sid {sid}"))
     # two types that search the same glob (miniB: pr__file / pr__doc): the file-system finder still answers like the list search
-    (s_, epre_, esuf_, fixed_, junk_, jpre_, jsuf_) = ("m/p/x/it/01/s/*", "m/p/x/it/01/s/", "", "m/p/x/it/01/s/d;m/p/x/it/01/s/i;m/p/x/it/01/p/t", "@/M/PROPS/x/it/01/x-it-SAV.02.d", "/M/PROPS/x/it/01/x-it-SAV.01.", "Q")
+    (s_, epre_, esuf_, fixed_, junk_, jpre_, jsuf_) = ("m/p/x/it/01/s/*", "m/p/x/it/01/s/", "", "m/p/x/it/01/s/d;m/p/x/it/01/s/i;m/p/x/it/01/p/t", "@/M/PROPS/x/it/01/x-it-SAV.02.d", "", "")
     o.append(Obl(f"C12-paths[miniB,{s_}]", "xhair.obl.c11", "paths_agree", env={"VF_CONF": "miniB", "VF_SEARCH": s_, "VF_EPRE": epre_, "VF_ESUF": esuf_, "VF_FIXED": fixed_, "VF_JUNK": junk_, "VF_JPRE": jpre_, "VF_JSUF": jsuf_},
                  timeout=T, path_timeout=200, family="C12-paths", bound="miniB: search over two types sharing one glob pattern; three path configurations over the glob model"))
     o.append(Obl("C12-order-repeat[caches on]", M, "order_repeat", env={"VF_CACHES": "1"}, timeout=T, family="C12-finder",
